@@ -1,1 +1,3 @@
 pub mod content;
+pub mod content_ws;
+pub mod merge_content;
